@@ -1537,7 +1537,17 @@ func main() {
 	outGo := flag.String("go", "", "Go type registry output (for the harness)")
 	outFacts := flag.String("facts", "", "facts.json output (facts about codec/*.go and package-level state)")
 	outLock := flag.String("leanlock", "", "Lean data output: the registry functions as lock programs (GenLock.lean)")
+	outCodec := flag.String("leancodec", "", "Lean data output: codec/*.go translated into GoIR (GenCodec.lean)")
+	codecNS := flag.String("codecns", "Gen", "Lean namespace of the GoIR output")
 	flag.Parse()
+
+	if *outCodec != "" {
+		srcIR, summary := emitGoIR(*root, *codecNS)
+		os.WriteFile(*outCodec, []byte(srcIR), 0o644)
+		for _, l := range summary {
+			fmt.Fprintln(os.Stderr, "goir:", l)
+		}
+	}
 
 	sc := &Schema{}
 	infos := map[string]*pkgInfo{}
